@@ -179,4 +179,4 @@ def execute(case):
 LEVEL_TEXT = ('Generated connection programs are mirrored on an object-level model that predicts, for every step, the state '
               'each object shows, which objects have an oid, and exactly which records a commit stores; failed commits are '
               'provoked at every participant phase and by storage conflicts. Exploration of programs up to 18/35 steps.')
-LEVEL_NOTE = ('Trusted: vlib/objprog.OModel; the storage iterator as the listing of stored records. Blobs and savepoints are in C13/C12.')
+LEVEL_NOTE = ('Trusted: vlib/objprog.OModel; the storage iterator as the listing of stored records. A quarter of the programs take savepoints (new objects saved by a savepoint are not used again after a failure, DESIGN 10.2 obs. 7); a tenth run on a two-database multi-database (close / reuse); blobs: C13.')
